@@ -2068,7 +2068,10 @@ theorem getC_spec {rec : Rec} (ih : IH rec) (c : Nat) (S : Nat → Prop) (hSc : 
             simp only at h
             obtain ⟨i1, i2, i3, i4, i5, i6, i7⟩ := addParent_spec w1 inv1 hSp hxp (r := .comp c)
               (fun c' hc' => by cases hc'; exact hSlt p hSp) (fun k hk => by cases hk) ha
-            refine tail s2 i1 i2 i3 i4 i5 (fun q hq => i6 q (fun e => hq (by rw [hc, e]))) ?_ h
+            -- G15: what `c` depends on goes on record as read; the invariant does not speak about the record
+            refine tail { s2 with proc := sourcesOf s2 (c + 1) c ++ s2.proc }
+              (i1.congr rfl rfl rfl rfl (fun q hq => i1.curStack q hq)) ⟨i2.progs, i2.decls, i2.comps⟩ i3 i4 i5
+              (fun q hq => i6 q (fun e => hq (by rw [hc, e]))) ?_ h
             intro p' xp' hp' hxp'
             rw [hc] at hp'; cases hp'
             rw [hxp] at hxp'; cases hxp'
